@@ -121,10 +121,34 @@ pub fn execute_fsm_pipe(fsm_pipe: &FsmPipe, env: Option<&Environment>, p: &Inter
   }
   let mut state = pattern_to_value(&fsm.start, &call_env, p)?;
   validate_fsm_state_coverage(&fsm, fsm_pipe)?;
-  execute_fsm_pipe_impl(&fsm, &mut state, &mut call_env, p)
+  // The value of an output arm has to be of the kind the specification declares.
+  let mut output_kind: Option<ValueKind> = None;
+  #[cfg(feature = "kind_annotation")]
+  {
+    let output_decl = p.user_state_machine_specs.borrow().get(&fsm_id).and_then(|spec| spec.output.clone());
+    if let Some(output_decl) = output_decl {
+      output_kind = Some(kind_annotation(&output_decl.kind, p)?.to_value_kind(&p.state.borrow().kinds)?);
+    }
+  }
+  execute_fsm_pipe_impl(&fsm, &mut state, &mut call_env, output_kind.as_ref(), p)
 }
 
-fn execute_fsm_pipe_impl(fsm: &FsmImplementation, state: &mut Value, call_env: &mut Environment, p: &Interpreter) -> MResult<Value> {
+fn check_fsm_output_kind(fsm: &FsmImplementation, value: &Value, output_kind: Option<&ValueKind>) -> MResult<()> {
+  match output_kind {
+    Some(expected_kind) if !fsm_argument_kind_matches(expected_kind, &value.kind()) => Err(MechError::new(
+      FsmOutputKindMismatchError {
+        fsm_name: fsm.name.to_string(),
+        expected_kind: expected_kind.clone(),
+        actual_kind: value.kind(),
+      },
+      None,
+    )
+    .with_compiler_loc()),
+    _ => Ok(()),
+  }
+}
+
+fn execute_fsm_pipe_impl(fsm: &FsmImplementation, state: &mut Value, call_env: &mut Environment, output_kind: Option<&ValueKind>, p: &Interpreter) -> MResult<Value> {
   trace_println!(
     p,
     "{}",
@@ -172,6 +196,7 @@ fn execute_fsm_pipe_impl(fsm: &FsmImplementation, state: &mut Value, call_env: &
             let out = apply_transitions(transitions, state, &mut arm_env, p)?;
             *call_env = arm_env;
             if let Some(value) = out {
+              check_fsm_output_kind(fsm, &value, output_kind)?;
               trace_println!(
                 p,
                 "{}",
@@ -257,6 +282,7 @@ fn execute_fsm_pipe_impl(fsm: &FsmImplementation, state: &mut Value, call_env: &
             let out = apply_transitions(&guard.transitions, state, &mut arm_env, p)?;
             *call_env = arm_env;
             if let Some(value) = out {
+              check_fsm_output_kind(fsm, &value, output_kind)?;
               trace_println!(
                 p,
                 "{}",
@@ -493,6 +519,25 @@ impl MechErrorKind for FsmExceededTransitionLimitError {
     format!(
       "FSM exceeded maximum transition limit of {} steps",
       self.max_transitions
+    )
+  }
+}
+
+#[derive(Debug, Clone)]
+pub struct FsmOutputKindMismatchError {
+  pub fsm_name: String,
+  pub expected_kind: ValueKind,
+  pub actual_kind: ValueKind,
+}
+
+impl MechErrorKind for FsmOutputKindMismatchError {
+  fn name(&self) -> &str {
+    "FsmOutputKindMismatch"
+  }
+  fn message(&self) -> String {
+    format!(
+      "FSM '{}' output kind mismatch. Expected {}, found {}.",
+      self.fsm_name, self.expected_kind, self.actual_kind
     )
   }
 }
